@@ -25,8 +25,8 @@ RULE = ("lists of JSON objects in hint position: random key/value trees and fiel
         "processed; distinct = distinct hint lists.")
 ASSUMPTIONS = ["top-level list elements are JSON objects (dicts); nested positions hold arbitrary JSON values",
                "bool ports and out-of-range integer ports are don't-care for the dial clause"]
-FLOORS = {"quick": {"path1_cases": 600, "path2_cases": 100, "path3_cases": 100, "rx_hints_in_LONELY": 15, "rx_hints_in_CONNECTED": 30, "rx_hints_in_FLUSHING": 8, "malformed_elements": 1500, "roundtrips": 50, "dials": 400, "tor_refusals": 100},
-          "thorough": {"path1_cases": 40000, "path2_cases": 3000, "path3_cases": 3000, "rx_hints_in_LONELY": 500, "rx_hints_in_CONNECTED": 1000, "rx_hints_in_FLUSHING": 250, "malformed_elements": 90000, "roundtrips": 2500, "dials": 20000, "tor_refusals": 6000}}
+FLOORS = {"quick": {"path1_cases": 600, "path2_cases": 100, "path3_cases": 100, "rx_hints_in_LONELY": 15, "rx_hints_in_CONNECTED": 30, "rx_hints_in_FLUSHING": 8, "malformed_elements": 1500, "roundtrips": 50, "dials": 400, "tor_refusals": 100, "path4_cases": 30},
+          "thorough": {"path1_cases": 40000, "path2_cases": 3000, "path3_cases": 3000, "rx_hints_in_LONELY": 500, "rx_hints_in_CONNECTED": 1000, "rx_hints_in_FLUSHING": 250, "malformed_elements": 90000, "roundtrips": 2500, "dials": 20000, "tor_refusals": 6000, "path4_cases": 1000}}
 JUNK = [None, True, False, 0, -1, 1.5, 2 ** 40, "", "str", [], [1, 2], {}, {"a": 1}, "direct-tcp-v1", ["direct-tcp-v1"], {"type": "direct-tcp-v1"}]
 HOSTS = ["10.1.1.1", "10.1.1.2", "host.example", "fe80::1", "", " ", "a b", "ünï.example", "x" * 300, "127.0.0.1"]
 
@@ -166,6 +166,7 @@ def cases(tier, seed, prep=None):
     out += [{"kind": "dilation", "seed": b + 100000 + i} for i in range(130 if q else 3500)]
     out += [{"kind": "dilstates", "seed": b + 150000 + i} for i in range(120 if q else 3500)]
     out += [{"kind": "roundtrip", "seed": b + 200000 + i} for i in range(60 if q else 2600)]
+    out += [{"kind": "clitext", "seed": b + 250000 + i} for i in range(40 if q else 1200)]
     return out
 
 
@@ -477,5 +478,61 @@ def run_roundtrip(spec):
             "sample": {"kind": "roundtrip", "path": path, "want": sorted(want), "dialled": sorted(dialled, key=repr)}}
 
 
+def run_clitext(spec):
+    """path 4: the real `wormhole send --text` against a peer that sends a transit message with generated hints although
+    nothing will be transferred over transit: the message must be delivered and the sender must report success"""
+    from twisted.internet import defer
+    from wormhole import create
+    from wormhole.util import dict_to_bytes, bytes_to_dict
+    from wormhole.cli import cmd_send
+    from ..cli_work import mkargs, outcome
+    from ..env import URL
+    world = World(spec["seed"])
+    rng = world.work_rng
+    r = world.reactor
+    hints = gen_hints(rng)
+    _, bad = allowed_targets(hints)
+    code = "%d-clitext-%d" % (rng.randint(1, 900), rng.randint(1, 9))
+    got = []
+
+    @defer.inlineCallbacks
+    def peer():
+        w = create("lothar.com/wormhole/text-or-file-xfer", URL, r)
+        w.set_code(code)
+        try:
+            yield w.get_verifier()
+            w.send_message(dict_to_bytes({"transit": {"abilities-v1": rng.choice([[], [{"type": "direct-tcp-v1"}], "x", None]), "hints-v1": hints}}))
+            while True:
+                m = bytes_to_dict((yield w.get_message()))
+                if "offer" in m:
+                    got.append(m["offer"])
+                    w.send_message(dict_to_bytes({"answer": {"message_ack": "ok"}}))
+                    break
+        finally:
+            try:
+                yield w.close()
+            except Exception:
+                pass
+    sa = mkargs(text="hello from the sender", code=code)
+    cmd_send.reactor = r
+    rs = Result(cmd_send.Sender(sa, r).go())
+    rp = Result(peer())
+    sch = Scheduler(world, None, strategy="random", chunking="whole")
+    sch.run(4000, until=lambda: rs.done and rp.done)
+    sch.drain(200.0, 20000, until=lambda: rs.done and rp.done)
+    viol = []
+    wit = {"spec": spec, "hints": json.loads(json.dumps(hints, default=repr))[:8], "sender": outcome(rs), "sender_err": repr(rs.failure.value)[:200] if rs.failure else None,
+           "stderr": sa.stderr.getvalue()[-300:]}
+    if outcome(rs) != "success":
+        fr = rs.failure.frames[-1] if rs.failure is not None and rs.failure.frames else ("?",)
+        viol.append({"key": "C20/cli-text/aborted-by-peer-transit-message/%s/%s" % (outcome(rs), fr[0]),
+                     "msg": "`wormhole send --text` ended with %s after the peer sent a transit message with %d hint entries" % (wit["sender_err"], len(hints)), "witness": wit})
+    elif not got or got[0].get("message") != "hello from the sender":
+        viol.append({"key": "C20/cli-text/message-not-delivered", "msg": repr(got)[:200], "witness": wit})
+    world.finish()
+    return {"violations": viol, "nontrivial": json.dumps(wit["hints"], sort_keys=True)[:300],
+            "counters": {"path4_cases": 1, "malformed_elements": bad}, "sample": {"kind": "clitext", "sender": outcome(rs)}}
+
+
 def run_case(spec):
-    return {"transit": run_transit, "dilation": run_dilation, "dilstates": run_dilstates, "roundtrip": run_roundtrip}[spec["kind"]](spec)
+    return {"transit": run_transit, "dilation": run_dilation, "dilstates": run_dilstates, "roundtrip": run_roundtrip, "clitext": run_clitext}[spec["kind"]](spec)
